@@ -21,6 +21,8 @@ pub fn vacuum_in_place(
     ndb_path: impl AsRef<Path>,
     wal_path: impl AsRef<Path>,
 ) -> Result<VacuumReport> {
+    #[cfg(nervusdb_verif)]
+    use nervusdb_api::verif::std_shim as std;
     let ndb_path = ndb_path.as_ref();
     let wal_path = wal_path.as_ref();
 
